@@ -249,7 +249,15 @@ def _cleanup_chain(cur, order, false, Rule, LOC):
                     (lhs.atom.symbol.name, len(lhs.atom.symbol.arguments)) == (rhs.atom.symbol.name, len(rhs.atom.symbol.arguments))
                 try:
                     if not same_pred:
-                        raise KeyError
+                        # an implied literal of another predicate: `C08_remove_implied_in_objective`
+                        j = next(x for x, l in enumerate(body) if x != k and l == lhs)
+                        before2 = apart(stm.update(body=body))
+                        body2 = list(before2.body)
+                        after2 = before2.update(body=body2[:k] + body2[k + 1:])
+                        obs.append(("implied-obj", ser.prog(apart_prog(current[:i])), ser.stm(before2), ser.stm(after2) + " " + ser.prog(apart_prog(current[i + 1:])),
+                                    ser.stm(Rule(LOC, false, [body2[j]])), ser.stm(Rule(LOC, false, [body2[k]])),
+                                    f"{lhs} supersedes {rhs} in the objective {stm}"))
+                        continue
                     j = next(x for x, l in enumerate(body) if x != k and l == lhs)
                     before2 = apart(stm.update(body=body))
                     body2 = list(before2.body)
@@ -644,7 +652,12 @@ def run(rng, n_gen, corpus_limit=None, kinds=None) -> dict:
         tag = f"cl{len(meta)}"
         for order_name, lst in (("", cobs), ("@backward", bobs)):
             for pre, before, after, post, pr, qr, what in lst:
-                if pre == "anon-obj":
+                if pre == "implied-obj":
+                    if order_name:
+                        continue
+                    reqs.append(f'(sem_implied_obj {before} {after} {post} {pr} {qr})')   # (pre, before, "after post", :- p., :- q.)
+                    meta.append(("cleanup-in-objective", text, what, 1))
+                elif pre == "anon-obj":
                     if order_name:
                         continue
                     reqs.append(f'(sem_anon_obj {before} {after} {post} {pr} {qr})')   # (before, after, :- p., :- q., F)
